@@ -93,9 +93,10 @@ for mid, props, path, old, new, neg in M:
         if b.returncode != 0:
             print(mid, "DOES NOT BUILD", b.stdout.decode()[:300]); continue
         r = sh(["/verif/tools/baseline.sh"], env=dict(os.environ, VERIF_REPO=copy))
-        first = r.stdout.decode().splitlines()[0] if r.stdout else ""
+        lines = [l for l in r.stdout.decode().splitlines() if l.startswith(("passed=", "FAIL "))]
+        first = lines[0] if lines else ""
         if r.returncode != 0:
-            print(mid, "caught by the existing suite:", first, r.stdout.decode().splitlines()[1:3]); continue
+            print(mid, "caught by the existing suite:", first, lines[1:3]); continue
         d = sh(["git", "-C", copy, "diff"]).stdout.decode()
         open("/verif/selftest/hand_%s.diff" % mid, "w").write(d)
         out.append(dict(id="hand-" + mid, patch="selftest/hand_%s.diff" % mid, props=props, **({"negative_control": True} if neg else {})))
